@@ -160,22 +160,6 @@ known("C06", r"^tape_roundtrip\|rt/[^|]*\|C06:roundtrip\|rt/lens=[\d,]*\b0\b[\d,
 known("C06", r"^tape_reader_contracts\|fn/read_file\|[^|]*\|probe:post:empty-file-is-returned:empty-data-file:not-listed",
       "same defect at its call site: CassetteFile.read_file ends with `if not data: return None`, so a well-formed file whose data "
       "blocks carry no bytes is not returned (contract clause post:empty-file-is-returned)", {"files": "cassette stream: name-file block + EOF block"})
-known("C08", r"^disk_layout\|(write|multi)/[^|]*\|(C08:consistent|C08:stream|C08:files|C08:length-identity)\|[^|]*straddle=yes",
-      "the 5-byte machine-language trailer is written physically after the data even when it straddles the end of a granule: with a "
-      "non-adjacent next granule (always from granule 33 to 34) trailer bytes land outside the chain, e.g. in the directory track",
-      {"files": "disk: one ML file of 4599 bytes (default order) or 2295 bytes (reversed order)"}, also=("C07",))
-known("C07", r"^disk_layout\|(write|multi|foreign)/[^|]*\|C07:(roundtrip|foreign)(:\w+)?\|[^|]*adj=(no|unknown)",
-      "the disk reader assumes that a file's granules are physically contiguous: files whose chain has a non-adjacent step (other fill "
-      "orders, fragmentation, every chain crossing granule 33 -> 34, chains near the end of the image) are not read back",
-      {"files": "disk: ML file of 5000 bytes with reversed fill order"}, also=("C09", "C16"))
-known("C07", r"^disk_layout\|(write|multi|foreign)/[^|]*\|C07:(roundtrip|foreign)(:\w+)?\|[^|]*empty=yes",
-      "an empty file is not read back from a disk image (ML: postamble read at the wrong place; BASIC: 3 header bytes returned as data)",
-      {"files": "disk: ML file with 0 data bytes"}, also=("C09", "C16"))
-known("C07", r"^disk_layout\|(write|multi)/[^|]*\|C07:roundtrip(:\w+)?\|[^|]*straddle=yes",
-      "a file whose trailer straddles a granule end is not read back", {"files": "disk: ML file of 2295 bytes"}, also=("C08",))
-known("C15", r"^disk_layout\|write/ML/len\d+/\w+\|C15:stored\|write/ML/len%2304=\d+/\w+:writer-raised:VirtualFileValidationError",
-      "writing a file whose trailer straddles the last physical granule of the image fails with `Not enough bytes to write postamble`",
-      {"files": "disk: ML file of 2295 bytes, reversed fill order"}, also=("C07",))
 known("C09", r"^vfile_history\|sniff/cas-big-(zero|ff|mixed)\|C09:kind-recognised\|sniff/[\w-]+:(raised:\w+|recognised-as:\w+)",
       "a cassette image of 161,280 bytes or more is tried as a disk image first; UnicodeDecodeError (not caught) escapes or the "
       "disk reader returns garbage, so the image cannot be re-opened as a cassette",
@@ -185,9 +169,6 @@ known("C09", r"^cli_assembler\|asm/cas/append/bigcas/\w+\|C09:append-proceeds\|"
 known("C09", r"^vfile_history\|history/(cas|dsk)/[^|]*\|(C09:history|C09:addition-succeeds)\|history/(cas|dsk)/[\d,]*\b0\b[\d,]*:",
       "after an empty file was stored, a later --append loses it and the following files (cassette) or fails to re-open the image (disk)",
       {"files": "history: add empty file, save, re-open, add another"}, also=("C06", "C07"))
-known("C09", r"^vfile_history\|history/dsk/[^|]*\|(C09:history|C09:addition-succeeds|C13:terminates)\|history/dsk/",
-      "disk histories that hit the trailer-straddle layout defect cannot be re-opened for the next --append",
-      {"files": "history: disk, 4603-byte file then append"}, also=("C07", "C08", "C13"))
 known("C10", r"^(cli_assembler\|asm/cas/append/(raw|arbitrary)/\w+\|C10:(unchanged-other-kind|told-why)|cli_fileutil\|fu/existing-target/dsk-to-cas/raw/append\|C10:(unchanged|told-why))\|",
       "--to_cas --append onto an existing file that is NOT a cassette image (raw binary, arbitrary bytes) overwrites it: any file "
       "without a tape header is sniffed as an empty cassette", {"cli": "assembler.py prog.asm --to_cas raw.bin --append"})
@@ -196,9 +177,6 @@ known("C16", r"^cli_fileutil\|fu/cas-to-(cas|dsk)/lower/files=\w+\|C16:selection
       "upper-cases the request but not the stored name", {"cli": "file_util.py host.cas --to_dsk out.dsk --files hello"})
 known("C16", r"^cli_fileutil\|fu/[^|]*/with-empty/all\|C16:converted\|", "conversions lose empty files (and, from cassette, the files after them)",
       {"cli": "file_util.py host.cas --to_dsk out.dsk"}, also=("C06", "C07"))
-known("C16", r"^cli_fileutil\|fu/(dsk-to-\w+|chain/[\w-]+|[^|]*three[^|]*)[^|]*\|(C16:converted|C16:chain|C16:selection)\|",
-      "conversions through a disk image fail for files whose trailer straddles a granule or whose name needs normalising",
-      {"cli": "file_util.py host.dsk --to_cas out.cas"}, also=("C07",))
 known("C19", r"^include\|missing-file\|C19:missing-file-is-diagnostic\|missing-file:escape:FileNotFoundError",
       "INCLUDE of a missing file escapes as FileNotFoundError (a traceback) instead of a diagnostic", {"asm": [" INCLUDE nothere.asm"]},
       also=("C13",))
@@ -235,6 +213,15 @@ FIXED = [
     fixed("C01", "18a3343", "16-bit-register instruction with 8-bit constant index offset emitted 2 offset bytes behind an 8-bit post-byte (C02, C12)"),
     fixed("C07", "9425923", "disk directory entry corrupted by names longer than 8 characters (C08, C09, C11)"),
     fixed("C02", "409a2b5", "negative constant index offsets not counted in the statement size"),
+    fixed("C07", "389ab66", "read_data refused valid files whose chain starts or continues in a granule near the end of the image "
+                            "(length test against the whole remaining file instead of the granule being read) (C09, C16)"),
+    fixed("C07", "91d1272", "binary file whose data ends at (or whose postamble straddles) a granule end with a non-adjacent next granule "
+                            "was not read back: postamble looked for at the physically following byte (C09, C16)"),
+    fixed("C07", "5b72d76", "empty binary / BASIC file not read back from a disk image: recorded length 0 taken for 'no length recorded' "
+                            "(C09, C16)"),
+    fixed("C08", "acb1d1b", "postamble written past the end of the granule (into the directory track from granule 33, into other files' "
+                            "granules, or past the end of the image: `Not enough bytes to write postamble`) when it straddled a granule "
+                            "end (C07, C15, C09, C16)"),
 ]
 
 
